@@ -238,12 +238,12 @@ def run_property(prop, tier, seed, replay_path=None):
                 # a shrunk candidate the oracle cannot read is not "still failing"; and the failure must stay of the
                 # same kind (shrinking must not drift to a different complaint about a mangled case)
                 return [any(finding_filter(c, e[c["id"]], f) for f in e[c["id"]]["fi"]
-                            if not f.get("oracle_error") and (kinds is None or fail_kind(f["msg"]) in kinds)) for c in cands]
+                            if not f.get("oracle_error") and not f.get("tie") and (kinds is None or fail_kind(f["msg"]) in kinds)) for c in cands]
             return pb
 
         def pred_mismatch(cands):
             e = evaluate(prop, cands, bins, driver, workdir, want_model=True)
-            return [bool(e[c["id"]]["mism"]) for c in cands]
+            return [bool(e[c["id"]]["mism"]) or any(f.get("tie") for f in e[c["id"]]["fi"]) for c in cands]
 
         dist = collections.Counter()
         seen = set()
@@ -271,10 +271,14 @@ def run_property(prop, tier, seed, replay_path=None):
                         witness_seen.add(kid)
                 else:
                     fails_unknown.append(f)
+            # complaints that are about the TIE, not about an input: the oracle could not read the transcript, or says itself that
+            # what it sees may be the harness's blindness (flag "tie"). They are reported, never as a failing input.
+            tie_only = [f for f in fails_unknown if f.get("oracle_error") or f.get("tie")]
+            fails_unknown = [f for f in fails_unknown if not (f.get("oracle_error") or f.get("tie"))]
             if fails_unknown:
                 unknown_fail.append((c, fails_unknown))
-            elif r["mism"]:
-                mism_cases.append((c, r["mism"]))
+            elif r["mism"] or tie_only:
+                mism_cases.append((c, r["mism"] + ["oracle: " + f["msg"] for f in tie_only]))
 
         # ---- 5b. black-box part (no model involved)
         bb_fails, bb_cov = ([], {}) if replay_path else prop.extra_run(tier, seed, workdir)
@@ -339,7 +343,7 @@ def run_property(prop, tier, seed, replay_path=None):
                 e2 = evaluate(prop, extra, bins, driver, workdir, want_model=False)
                 for x in extra:
                     r2 = e2[x["id"]]
-                    bad = [f for f in r2["fi"] if is_unknown(x, r2, f)]
+                    bad = [f for f in r2["fi"] if is_unknown(x, r2, f) and not f.get("tie") and not f.get("oracle_error")]
                     if bad:
                         found = (x, bad)
                         break
@@ -358,7 +362,7 @@ def run_property(prop, tier, seed, replay_path=None):
             else:
                 path = write_replay(pid, {"property": pid, "kind": "correspondence", "seed": seed,
                                           "relation": "model/implementation observables: " + json.dumps(prop.fields),
-                                          "mismatches": (e["mism"] or mm)[:8], "case": strip(small),
+                                          "mismatches": (e["mism"] or mm)[:8] + ["oracle: " + f["msg"] for f in e["fi"] if f.get("tie") or f.get("oracle_error")][:4], "case": strip(small),
                                           "implementation_transcript": e["lines"],
                                           "model_transcript": e["model_lines"],
                                           "mismatching_cases": len(mism_cases),
